@@ -100,6 +100,16 @@ CLAIMED["C11"] = ("other",
     "Trusted: clang 14 front end; LLVM sroa/early-cse; irx; bytemap.py and the fact engine; strrchr/strdup semantics; assumption A-tolower (tolower cannot introduce '/').",
     "static analysis: value-provenance rules, byte-map loop evaluation over the 256-value domain, cut-set (sanitiser-last) and call-graph mod-set rules on LLVM IR (custom checker)", "DESIGN.md §3 C11")
 
+CLAIMED["C13"] = ("other",
+    "Static termination classification of every natural loop of lib/ and src/ (claimed in part): counted induction with an invariant bound (also through nested loops and linear expressions of the "
+    "induction variable), strictly decreasing remainder with 0 < step <= value, input-driven loops that leave on the exhausted outcome of a read-like call, terminated-string / sentinel-array scans, "
+    "list walks; six listed exceptions with reasons and support rules; recursion confined to match_glob and the depth-2 MacBinary pass-through; allocation sizes in lib/ are linear forms over admissible "
+    "symbols with the 1 MiB ceiling an available fact at the header reallocation, decoder state size summed over all decoder types (<= 4 MiB); sticky flags; 256 KiB bound of the self-extractor scan. "
+    "This found the hang of the read-based skip fallback at end of input (fixed in repo commit eaeb14e); the suite has a single truncated archive read through a seekable file, so a hang could only show as a runner timeout. "
+    "Not decided: the linear step budget and the heap peak as numbers; read-driven loops assume the stream eventually reports exhaustion.",
+    "Trusted: clang 14 front end; LLVM sroa/early-cse; irx; loops.py classes and the read-like function table; listed exceptions E-* with their reasons (printed in the evidence); strings and sentinel arrays are terminated, lists acyclic.",
+    "static analysis: loop-termination classifier (induction-variable / ranking-function witnesses from SSA + branch facts), call-graph cycle check, allocation-size provenance via linear forms on LLVM IR (custom checker)", "DESIGN.md §3 C13, §2 E8")
+
 NOT_APPLICABLE = {
     "C01": "decode exactness is an equality of runtime byte streams produced by table-driven Huffman state machines; no structural clause is a necessary condition the tests leave open (DESIGN §4)",
     "C02": "lock-step of the adaptive -lh1- tree with LZHUF is an equality over runtime symbol histories (tie-break order, rebuild threshold are value computations); not decidable by static analysis in reach (DESIGN §4)",
